@@ -113,12 +113,24 @@ def generate(o):
                 and isinstance(n.value, ast.Tuple) and len(n.value.elts) == 2]
         return one(hits, fname + ": bins[...] = (centre, count)").value.elts
 
+    def computed_centre(fname):
+        """The centre a merge *computes*: the first component of the stored tuple, seen through `min(max(E, lo), hi)` (the
+        stored centre is kept within the pair it replaces — that wrapper is `Gen.DistogramOps.trimStored` /
+        `inPlaceStored`, harness/extractors/c13ops.py) and through one local name (`centre = E`)."""
+        e = stored_tuple(fname, None)[0]
+        if (isinstance(e, ast.Call) and ast.unparse(e.func) == "min" and len(e.args) == 2 and not e.keywords
+                and isinstance(e.args[0], ast.Call) and ast.unparse(e.args[0].func) == "max" and len(e.args[0].args) == 2):
+            e = e.args[0].args[0]
+        if isinstance(e, ast.Name):
+            e = one(assigned(fn(fname).body, e.id), fname + ": %s = ..." % e.id)
+        return e
+
     trim_env = {"v1": "v1", "f1": "f1", "v2": "v2", "f2": "f2"}
     inpl_env = {"current_value": "cv", "current_frequency": "cf", "new_value": "nv", "new_count": "nc"}
     v = {}
-    v["trim.centre"] = o.item("distogram.expr.trim.centre", lambda: lean(stored_tuple("_trim", "h")[0], trim_env), PIN["trim.centre"])
+    v["trim.centre"] = o.item("distogram.expr.trim.centre", lambda: lean(computed_centre("_trim"), trim_env), PIN["trim.centre"])
     v["trim.count"] = o.item("distogram.expr.trim.count", lambda: lean(stored_tuple("_trim", "h")[1], trim_env), PIN["trim.count"])
-    v["inplace.centre"] = o.item("distogram.expr.inplace.centre", lambda: lean(stored_tuple("_trim_in_place", "distogram")[0], inpl_env), PIN["inplace.centre"])
+    v["inplace.centre"] = o.item("distogram.expr.inplace.centre", lambda: lean(computed_centre("_trim_in_place"), inpl_env), PIN["inplace.centre"])
     v["inplace.count"] = o.item("distogram.expr.inplace.count", lambda: lean(stored_tuple("_trim_in_place", "distogram")[1], inpl_env), PIN["inplace.count"])
 
     # ---- bulkload midpoint: the element of the list comprehension over range(len(bin_values) - 1)
